@@ -1,6 +1,7 @@
 package vharn
 
 import (
+	"github.com/johannesboyne/gofakes3"
 	"net/http"
 	"net/url"
 
@@ -100,4 +101,45 @@ func VH_C04_mem() {
 	vsym.Assert(sameStrings(gotKeys, wantKeys), "C04/concatenation-keys")
 	vsym.Assert(sameStrings(gotCPs, wantCPs), "C04/concatenation-common-prefixes")
 	vsym.Reach("C04/done")
+}
+
+// VH_C04f: backends that do not paginate (bolt, fs) answer a paged request
+// with the complete listing and IsTruncated=false, or with NotImplemented when
+// configured to refuse.
+func VH_C04f() {
+	kind := backendKind()
+	refuse := vsym.Choice("refuse", 2) == 1
+	var h http.Handler
+	var b gofakes3.Backend
+	if refuse {
+		h, b = newServerKind(kind, gofakes3.WithUnimplementedPageError())
+	} else {
+		h, b = newServerKind(kind)
+	}
+	live := buildBucketKind(b, kind, 2, 2, '/', false, true)
+	q := url.Values{}
+	switch vsym.Choice("page", 4) {
+	case 0:
+		q.Set("max-keys", "1")
+	case 1:
+		q.Set("marker", "a")
+	case 2:
+		q.Set("list-type", "2")
+		q.Set("start-after", "a")
+	default:
+		q.Set("list-type", "2")
+		q.Set("max-keys", "1")
+	}
+	r := Do(h, Req{Method: "GET", Path: "/bkt", Query: q, Header: http.Header{}})
+	if refuse {
+		vsym.Assert(r.Code() == 501 && r.ErrCode() == "NotImplemented", "C04f/refusal")
+		vsym.Reach("C04f/refused")
+		return
+	}
+	vsym.Assert(r.Code() == 200, "C04f/status")
+	v := r.List()
+	keys, _, _, _ := expectedListing(live, "", false, 0, "")
+	vsym.Assert(v.OK && sameStrings(v.Keys, keys), "C04f/complete-listing")
+	vsym.Assert(!v.IsTruncated, "C04f/not-truncated")
+	vsym.Reach("C04f/complete")
 }
